@@ -31,6 +31,7 @@ CONSTANTS Senders,        \* sender ids
           FeedLens,       \* lengths of the packets the peer sends towards the receiver
           MaxRecvs,       \* Receive calls
           Faults,         \* injected carrier write failures (budget)
+          LateBytes,      \* TRUE when validating traces of real sockets (see WriteSome)
           Oracle(_, _),   \* trace validation: prophecy from the recorded wire (TRUE when model checking)
           Report, Dev
 
@@ -145,7 +146,7 @@ Inside(who) == IF who = "timer" THEN tpc = "flush" ELSE IF who = "closer" THEN c
 WriteSome(who, k, ok, acc) ==
   /\ Inside(who) /\ ~berr /\ k \in 1..Len(buf) /\ acc \in 0..k
   /\ ok => (carrier = "open" /\ acc = k)
-  /\ carrier # "open" => (~ok /\ acc = 0)
+  /\ carrier # "open" => (~ok /\ (acc = 0 \/ LateBytes))   \* (a write blocked by back pressure when the carrier was closed may have placed a part of its data: real sockets only)
   /\ fbudget' = IF ~ok /\ carrier = "open" THEN fbudget - 1 ELSE fbudget
   /\ fbudget' >= 0
   /\ wire' = wire \o SubSeq(buf, 1, acc) /\ buf' = Rest(buf, acc)
